@@ -61,6 +61,9 @@ pub enum Damage {
     EncodedBinding,
     MalformedImportedFile,
     EmptyStart,
+    /// reading succeeds, writing fails: a message part resolves to a component without a name
+    /// of its own (an xs:attribute), which only the binding writer rejects
+    WriterStageFailure,
 }
 
 #[derive(Clone, Debug, serde::Serialize, serde::Deserialize)]
@@ -93,6 +96,7 @@ fn arb_case(n_inputs: usize) -> impl Strategy<Value = Case> {
             1 => Just(Damage::EncodedBinding),
             1 => Just(Damage::MalformedImportedFile),
             1 => Just(Damage::EmptyStart),
+            2 => Just(Damage::WriterStageFailure),
         ],
         any::<u16>(),
     )
@@ -129,7 +133,32 @@ fn inputs() -> Vec<(String, FileSet)> {
     v
 }
 
+const WRITER_FAILS_WSDL: &str = r#"<?xml version="1.0"?>
+<wsdl:definitions xmlns:wsdl="http://schemas.xmlsoap.org/wsdl/" xmlns:soap="http://schemas.xmlsoap.org/wsdl/soap/" xmlns:xs="http://www.w3.org/2001/XMLSchema" xmlns:tns="http://example.org/wf" targetNamespace="http://example.org/wf">
+  <wsdl:types>
+    <xs:schema targetNamespace="http://example.org/wf" elementFormDefault="qualified">
+      <xs:attribute name="Ping" type="xs:string"/>
+      <xs:element name="Pong"><xs:complexType><xs:sequence><xs:element name="text" type="xs:string"/></xs:sequence></xs:complexType></xs:element>
+    </xs:schema>
+  </wsdl:types>
+  <wsdl:message name="PingIn"><wsdl:part name="body" element="tns:Ping"/></wsdl:message>
+  <wsdl:message name="PingOut"><wsdl:part name="body" element="tns:Pong"/></wsdl:message>
+  <wsdl:portType name="PingPort"><wsdl:operation name="Ping"><wsdl:input message="tns:PingIn"/><wsdl:output message="tns:PingOut"/></wsdl:operation></wsdl:portType>
+  <wsdl:binding name="PingBinding" type="tns:PingPort">
+    <soap:binding style="document" transport="http://schemas.xmlsoap.org/soap/http"/>
+    <wsdl:operation name="Ping"><soap:operation soapAction="http://example.org/wf/Ping"/><wsdl:input><soap:body use="literal"/></wsdl:input><wsdl:output><soap:body use="literal"/></wsdl:output></wsdl:operation>
+  </wsdl:binding>
+  <wsdl:service name="PingService"><wsdl:port name="PingPort" binding="tns:PingBinding"><soap:address location="http://localhost:8080/ping"/></wsdl:port></wsdl:service>
+</wsdl:definitions>"#;
+
 fn damaged(fs: &FileSet, d: Damage) -> FileSet {
+    if d == Damage::WriterStageFailure {
+        // keep the siblings, swap the start file's content
+        let mut out = fs.clone();
+        let si = out.files.iter().position(|f| f.0 == out.start).unwrap();
+        out.files[si].1 = WRITER_FAILS_WSDL.to_string();
+        return out;
+    }
     let mut fs = fs.clone();
     let si = fs.files.iter().position(|f| f.0 == fs.start).unwrap();
     match d {
@@ -341,7 +370,17 @@ pub fn evaluate(case: &Case, base: &FileSet, root: &Path) -> Verdict {
                 (Some(_), None) => "old-output-removed",
                 (None, _) => unreachable!(),
             };
-            let stage = if structural_failure { "input-path" } else if case.target != Target::Creatable { "output-target" } else if !lib_ok { "generation" } else { "spurious" };
+            let stage = if structural_failure {
+                "input-path"
+            } else if case.target != Target::Creatable {
+                "output-target"
+            } else if matches!(lib, GenOutcome::WriteErr(_)) {
+                "writing"
+            } else if !lib_ok {
+                "generation"
+            } else {
+                "spurious"
+            };
             Some((format!("failed-run:{effect}:stage={stage}"), format!("exit {exit}; {stderr_head}")))
         } else if expected_success == Some(true) {
             Some((format!("spurious-failure:spelling={spelling_class}"), format!("exit {exit}; {stderr_head}")))
@@ -360,7 +399,7 @@ pub fn run(tier: Tier) -> i32 {
         "C17",
         tier,
         "exploration",
-        "proptest-generated CLI scenarios: input set (repository and generated schema/WSDL sets, optionally damaged: missing input, directory as input, non-UTF-8 sibling, malformed/empty start file, unresolved import, encoded binding, malformed imported file) x working directory (input dir / parent / unrelated) x path spelling (absolute, relative, ./, bare file name, dir/../dir) x output (default <input>.rs, --output absolute / relative) x pre-existing output (absent / shorter / longer than the new text) x output target (creatable, inside a missing directory, an existing directory) x file creation order in the directory. Oracle: exit 0 => output bytes equal the library's bytes for the same contents and nothing stale follows; exit != 0 => the pre-existing output is byte-identical (or still absent); where the library accepts the contents and the target is creatable the exit status must be 0 for every spelling. Non-trivial: non-absolute spelling, or pre-existing output, or a failing case; distinct by the whole scenario.",
+        "proptest-generated CLI scenarios: input set (repository and generated schema/WSDL sets, optionally damaged: missing input, directory as input, non-UTF-8 sibling, malformed/empty start file, unresolved import, encoded binding, malformed imported file, a document that reads but fails while being written) x working directory (input dir / parent / unrelated) x path spelling (absolute, relative, ./, bare file name, dir/../dir) x output (default <input>.rs, --output absolute / relative) x pre-existing output (absent / shorter / longer than the new text) x output target (creatable, inside a missing directory, an existing directory) x file creation order in the directory. Oracle: exit 0 => output bytes equal the library's bytes for the same contents and nothing stale follows; exit != 0 => the pre-existing output is byte-identical (or still absent); where the library accepts the contents and the target is creatable the exit status must be 0 for every spelling. Non-trivial: non-absolute spelling, or pre-existing output, or a failing case; distinct by the whole scenario.",
     );
     ev.assume("the checks run as root, so unreadable/unwritable permission bits cannot be used; an uncreatable target and a non-UTF-8 sibling stand in for them");
     ev.assume("library bytes are computed in-process from the same contents (requires C12 determinism, which holds on this tree)");
@@ -400,6 +439,10 @@ pub fn run(tier: Tier) -> i32 {
         ev.case(&format!("{c:?}"), nt);
         ev.class(&format!("spelling.{:?}", c.spelling));
         ev.class(&format!("damage.{:?}", c.damage));
+        if c.damage == Damage::WriterStageFailure && v.expected_success == Some(true) {
+            // the fixture must fail in the writer; if it ever stops doing so the class is empty
+            ev.class("damage.WriterStageFailure.fixture-no-longer-fails");
+        }
         ev.class(&format!("pre.{:?}", c.pre));
         ev.class(&format!("target.{:?}", c.target));
         ev.class(&format!("expected.{}", match v.expected_success { Some(true) => "success", Some(false) => "failure", None => "either" }));
